@@ -403,6 +403,16 @@ def _track_layout(ctx, cv, arr_node):
     return list(next(iter(names)))
 
 
+def _as_load(node):
+    import copy
+
+    c = copy.deepcopy(node)
+    for x in ast.walk(c):
+        if hasattr(x, "ctx"):
+            x.ctx = ast.Load()
+    return c
+
+
 def _weighting(ctx, cv):
     m = ctx.model
     N = Normalizer(m, cv, inline=False)
@@ -411,6 +421,13 @@ def _weighting(ctx, cv):
     for lp in walk_no_nested(cv.node):
         if isinstance(lp, ast.For):
             for n in ast.walk(lp):
+                if isinstance(n, ast.AugAssign) and isinstance(n.op, ast.Mult) and isinstance(n.target, ast.Subscript) and isinstance(n.target.slice, ast.Tuple) and \
+                        len(n.target.slice.elts) == 4 and "prob_mat" in unparse(n.value):
+                    # `A[s] *= p`  ==  `A[s] = A[s] * p`
+                    orig = n
+                    n = ast.copy_location(ast.Assign(targets=[n.target], value=ast.BinOp(left=_as_load(n.target), op=ast.Mult(), right=n.value)), n)
+                    ast.fix_missing_locations(n)
+                    n._orig = orig
                 if isinstance(n, ast.Assign) and isinstance(n.targets[0], ast.Subscript) and isinstance(n.targets[0].slice, ast.Tuple) and \
                         len(n.targets[0].slice.elts) == 4 and "prob_mat" in unparse(n.value):
                     found = True
@@ -426,7 +443,7 @@ def _weighting(ctx, cv):
                     # loops cover all questions
                     loops = []
                     for l2 in walk_no_nested(cv.node):
-                        if isinstance(l2, ast.For) and any(x is n for x in ast.walk(l2)):
+                        if isinstance(l2, ast.For) and any(x is n or x is getattr(n, "_orig", None) for x in ast.walk(l2)):
                             loops.append(N(l2.iter))
                     # orientation: prob_mat is indexed (Alice question, Bob question); the copy must still be in that orientation, i.e.
                     # no re-orientation (transpose / swapaxes of the weighted array) may run before the weighting on any path
@@ -464,7 +481,8 @@ def _weighting(ctx, cv):
                                     if kk in ("numpy.array", "numpy.asarray", "numpy.zeros", "numpy.empty", "numpy.ones", "numpy.full") and len(x.args) >= 2:
                                         forced = unparse(x.args[1])
                             inexact = forced is not None and any(t in forced for t in ("float", "complex", "double", "inexact"))
-                            if "pred_mat" in txt and not floaty and not inexact:
+                            reads_pred = any((isinstance(x, ast.Attribute) and x.attr == "pred_mat") or (isinstance(x, ast.Name) and x.id == "pred_mat") for x in ast.walk(v))
+                            if reads_pred and not floaty and not inexact:
                                 inherits = (st, forced)
                         ctx.ob("R-DTYPE", cv, "the weighted copy of the predicate is a floating-point array", inherits is None,
                                "the buffer is created with an explicit floating dtype (or by float arithmetic)" if inherits is None else
